@@ -317,6 +317,22 @@ def np_extremum(meth):
     return g
 
 
+def p_hasattr(ex, args, kw, st):
+    """hasattr(record, 'name') for a record whose fields are given by its type spec: a field or a
+    contracted / defined member of the class."""
+    v, name = args[:2]
+    if not isinstance(v, SObj) or not isinstance(name, str):
+        raise Unsupported('hasattr of this value')
+    if name in v.fields:
+        return True
+    cls = v.cls.split('@')[0]
+    if ex.registry.lookup_method(v.cls, name) is not None or \
+            ex._find_method_def(cls, name) is not None or \
+            ex._find_method_def(cls, name, want_property=True) is not None:
+        return True
+    return False
+
+
 def np_isscalar(ex, args, kw, st):
     v = args[0]
     if is_num(v) or isinstance(v, (bool, int, float, str, SStr)):
@@ -1261,7 +1277,7 @@ TABLE = {
     'int': p_int, 'float': p_float, 'bool': p_bool, 'abs': p_abs, 'np.abs': p_abs,
     'np.fabs': p_abs, 'fabs': p_abs, 'math.fabs': p_abs,
     'min': p_min, 'max': p_max, 'len': p_len, 'isinstance': p_isinstance, 'slice': p_slice,
-    'tuple': p_tuple, 'list': p_list, 'set': p_set, 'sorted': p_sorted, 'np.insert': np_insert, 'np.isscalar': np_isscalar, 'np.max': np_extremum('max'), 'np.min': np_extremum('min'),
+    'tuple': p_tuple, 'list': p_list, 'set': p_set, 'sorted': p_sorted, 'np.insert': np_insert, 'np.isscalar': np_isscalar, 'hasattr': p_hasattr, 'np.max': np_extremum('max'), 'np.min': np_extremum('min'),
     'np.amax': np_extremum('max'), 'np.amin': np_extremum('min'), 'np.searchsorted': np_searchsorted, 'zip': p_zip, 'range': p_range, 'enumerate': p_enumerate,
     'sum': p_sum, 'all': p_all_py, 'any': p_any_py, 'round': p_round_unsupported,
     'math.sqrt': p_sqrt, 'np.sqrt': p_sqrt, 'sqrt': p_sqrt,
@@ -1360,7 +1376,7 @@ def _record(ex, args, kw, st):
 
 
 TABLE['record_'] = _record
-for _n in ('apsum', 'aperr', 'aparea', 'modelimg', 'apvalues', 'bkgest', 'apphot'):
+for _n in ('apsum', 'aperr', 'aparea', 'modelimg', 'apvalues', 'bkgest', 'apphot', 'cgrid', 'egrid', 'rgrid'):
     TABLE[_n + '_'] = cl_uf(_n)
 
 
